@@ -20,7 +20,9 @@ from ops import catalogue
 from ops.catalogue import I
 
 # functions backed by ctx-level / module-level caches and by the _mp/_fp/_iv cross references
-SHARED = ['zeta_rs_hi', 'siegelz_hi', 'zeta_rs_hi', 'coulombf', 'coulombg', 'coulombc', 'airyai', 'airybi', 'airyaizero', 'besseljzero', 'besselyzero', 'zeta_rs', 'siegelz',
+SHARED = ['nsum', 'nsum_alt', 'nsum_geom', 'nsum_fin', 'nsum_levin', 'nsum_geom_levin', 'nsum_levin', 'diff', 'diff_n', 'taylor', 'findroot', 'findroot_solver', 'limit', 'quadts',
+          'quad_lor', 'chebyfit', 'polyroots', 'sumem', 'nprod', 'pade', 'jacobian', 'quad_method',
+          'zeta_rs_hi', 'siegelz_hi', 'zeta_rs_hi', 'coulombf', 'coulombg', 'coulombc', 'airyai', 'airybi', 'airyaizero', 'besseljzero', 'besselyzero', 'zeta_rs', 'siegelz',
           'zetazero', 'stieltjes', 'quad', 'quadgl', 'hyp2f1', 'hyp1f1', 'besselj', 'zeta', 'zeta_int', 'bernoulli', 'gamma', 'const_pi',
           'const_euler', 'exp', 'ln', 'sin', 'atan', 'erf', 'ellipk', 'lambertw', 'polylog', 'grampoint', 'siegeltheta', 'nzeros',
           'riemannr', 'primezeta', 'secondzeta', 'backlunds', 'psi', 'factorial', 'loggamma', 'fib', 'det', 'inverse', 'lu_solve', 'expm']
@@ -164,7 +166,10 @@ def _check(ex, step, rec, where):
                 setattr(ctx, attr, want)
     if rec is None or step.get('kind') not in ('call', 'nestedstep'):
         return
-    if rec.get('fired'):
+    # a re-entrant visit of another context (F4) is an interleaving, not a fault: the step's own
+    # result stays subject to every oracle
+    is_fault = bool(rec.get('fired')) and rec['fired'].get('kind') != 'F4'
+    if is_fault:
         ex.faulted_actors.setdefault(actor, step.get('id'))
         if rec.get('status') == 'faulted':
             for name in list(w.actors):
@@ -173,14 +178,14 @@ def _check(ex, step, rec, where):
     if ex.last is not None and ex.last[0] != actor:
         ex.pairs.add((ex.last[0][:1], ex.last[1], actor[:1], key))
     ex.last = (actor, step.get('fam', '?'))
-    r = {'actor': actor, 'id': step.get('id'), 'status': rec.get('status'), 'fired': bool(rec.get('fired')), 'key': key,
+    r = {'actor': actor, 'id': step.get('id'), 'status': rec.get('status'), 'fired': is_fault, 'key': key,
          'prec': ex.model.get(actor)[0], 'tol': step.get('tol', 8), 'exact': bool(step.get('exact')),
          'trap': bool(ex.settings.get(actor, {}).get('trap_complex', False))}
-    if rec.get('status') == 'ok':
+    if rec.get('status') == 'ok' or (rec.get('status') == 'absorbed' and not is_fault):
         enc = codec.encode(rec.get('_res'))
         r['value'] = enc
         bad = []
-        if step.get('typed', True) and not rec.get('fired'):
+        if step.get('typed', True) and not is_fault:
             ex.type_checks += 1
             _allowed_types(enc, actor, bad)
             if bad:
@@ -205,7 +210,9 @@ def _solo_program(prog, actor):
             s2 = json.loads(json.dumps(s))
             s2.pop('fault', None)
             from simkit.world import _walk_specs
-            if s2.get('kind') == 'call' and not s.get('f4'):
+            if s2.get('kind') == 'call':
+                # alone means alone: the callback does not visit the other context in the solo run
+                # (a re-entrant visit that changes this actor's result is exactly what is looked for)
                 for sp in _walk_specs(s2):
                     if sp.get('t') == 'cb':
                         sp.pop('shim', None)
@@ -421,8 +428,17 @@ class _Gen(object):
             if e.cb and others and u1 < self.f4_rate:
                 other = others[int(u2 * len(others))]
                 kind2 = 'mp' if other in ('mp', 'c1', 'c2') else other
-                ne = r.choice([x for x in catalogue.entries(ctx=kind2, maxcost=1, cb=False) if x.key not in EXCLUDE and x.fam in 'BCDEFGH'])
-                nested = ne.gen(r, self.cfgw, actor=other)
+                if kind2 in e.ctxs and r.random() < 0.5:
+                    # the same routine re-entered in another context while this one is in flight
+                    ne = e
+                    nested = ne.gen(r, self.cfgw, actor=other)
+                    if 'kwargs' in st:
+                        nested['kwargs'] = json.loads(json.dumps(st['kwargs']))
+                    else:
+                        nested.pop('kwargs', None)
+                else:
+                    ne = r.choice([x for x in catalogue.entries(ctx=kind2, maxcost=1, cb=False) if x.key not in EXCLUDE and x.fam in 'BCDEFGH'])
+                    nested = ne.gen(r, self.cfgw, actor=other)
                 nested['id'] = self.new_id()
                 nested['workprec'] = pick_prec(r, min(300, ne.maxprec))
                 nested['tol'] = ne.tol or 2
